@@ -10,7 +10,7 @@ use std::ffi::OsString;
 
 pub static DEF: PropDef = PropDef {
     id: "C20",
-    rule: "random: 0-12 input lines built from words, inner and trailing blanks, the replacement string R itself, '{}', '%', multi-byte text, glob and shell characters (no quotes, backslashes or leading blanks: the statement's domain), blank lines in between, with/without final newline; 0-4 initial arguments each holding 0-3 occurrences of R (adjacent, embedded, alone); R in {'{}', '_', 'XX', '%', 'é', '{', '{}{}'}; spellings -I R / -i / --replace / --replace=R; mode options: -I alone, or 2-3 of -I R, -n k, -L k (k in 1..3) in every order. Exhaustive sub-run: the full order matrix of {-I, -n k, -L k} (k in 1..3), 2 or 3 of them, on a fixed three-line input. Oracle: replace mode: records == for each non-empty line in order [initial args with every R replaced by the whole line], nothing appended, exit 0, empty input => no record; the mode is decided by the last of -I/-n/-L (-I with -n 1 in either order is replace mode); -n/-L modes are modelled as in C04 (blank splitting, k arguments / k lines per invocation, initial arguments unchanged). Non-trivial = (a line contains a blank or R, and some initial argument contains R at least twice) or >= 2 mode options are present. Distinct = distinct case JSON.",
+    rule: "random: 0-12 input lines built from words, inner and trailing blanks, the replacement string R itself, '{}', '%', multi-byte text, glob and shell characters (no quotes, backslashes or leading blanks: the statement's domain), blank lines in between, with/without final newline; sub-run long-input: 1-3 filler lines bring the first run of 2-4 empty lines onto a multiple of 4096/8192/16384 bytes (offset 0..run+1), so that the run is split between two reads; 0-4 initial arguments each holding 0-3 occurrences of R (adjacent, embedded, alone); R in {'{}', '_', 'XX', '%', 'é', '{', '{}{}'}; spellings -I R / -i / --replace / --replace=R; mode options: -I alone, or 2-3 of -I R, -n k, -L k (k in 1..3) in every order. Exhaustive sub-run: the full order matrix of {-I, -n k, -L k} (k in 1..3), 2 or 3 of them, on a fixed three-line input. Oracle: replace mode: records == for each non-empty line in order [initial args with every R replaced by the whole line], nothing appended, exit 0, empty input => no record; the mode is decided by the last of -I/-n/-L (-I with -n 1 in either order is replace mode); -n/-L modes are modelled as in C04 (blank splitting, k arguments / k lines per invocation, initial arguments unchanged). Non-trivial = (a line contains a blank or R, and some initial argument contains R at least twice) or >= 2 mode options are present. Distinct = distinct case JSON.",
     assumptions: &[
         "lines are free of quotes, backslashes and leading blanks (stated domain); a line of only blanks is not generated",
         "three mode options that include -I, -n 1 and -L together are not generated: 'last wins' and '-I with -n 1 is not a conflict' do not settle which mode results",
@@ -39,6 +39,15 @@ pub struct Case {
     /// 0 "-I R", 1 "-i", 2 "--replace", 3 "--replace=R"
     pub spelling: u8,
     pub modes: Vec<ModeOpt>,
+    /// lengths of filler lines ('f' repeated) placed before `lines`: they move the rest of the input
+    /// across the reader's block boundaries
+    #[serde(default)]
+    pub lead: Vec<u32>,
+}
+
+/// every input line in order, filler lines included
+pub fn all_lines(c: &Case) -> Vec<String> {
+    c.lead.iter().map(|n| "f".repeat(*n as usize)).chain(c.lines.iter().cloned()).collect()
 }
 
 const WORDS: &[&str] = &["a", "b", "foo", "bar", "x1", "é", "日本", "*", "$HOME", "-n", "--", "a.b", ";", "&", "|", "~", "#x", "(", ")"];
@@ -120,11 +129,42 @@ pub fn gen_case(g: &mut Gen) -> Case {
             v
         }
     };
-    Case { lines, blanks_before, final_newline: g.chance(4, 5), initial, r, spelling, modes }
+    Case { lines, blanks_before, final_newline: g.chance(4, 5), initial, r, spelling, modes, lead: vec![] }
+}
+
+/// A case whose first run of empty lines straddles a multiple of the reader's block size (BufReader:
+/// 8192 bytes; the blank-separated reader refills 4096 at a time): 1-3 filler lines bring the input to
+/// `k * block - d`, then 2-4 empty lines follow, then the ordinary lines.
+pub fn gen_long_case(g: &mut Gen) -> Case {
+    let mut c = gen_case(g);
+    if c.lines.is_empty() {
+        c.lines.push("tail".into());
+        c.blanks_before.push(0);
+    }
+    let run = g.usize_in(2, 4);
+    c.blanks_before[0] = run as u8;
+    let block = g.pick(&[8192usize, 8192, 4096, 16384]);
+    let d = g.usize_in(0, run + 1);
+    // the newline that ends the last filler line is the first delimiter of the run
+    let total = block - d.min(block - 8);
+    let nfill = g.usize_in(1, 3).min(total / 4);
+    let mut left = total;
+    for i in 0..nfill {
+        let this = if i + 1 == nfill { left } else { g.usize_in(2, left - 2 * (nfill - i - 1)) };
+        c.lead.push((this - 1) as u32);
+        left -= this;
+    }
+    // -s must admit the longest substituted command line: keep the initial arguments short
+    c.initial.truncate(2);
+    c
 }
 
 pub fn render_input(c: &Case) -> Vec<u8> {
     let mut s = String::new();
+    for n in &c.lead {
+        s.push_str(&"f".repeat(*n as usize));
+        s.push('\n');
+    }
     for (i, l) in c.lines.iter().enumerate() {
         for _ in 0..c.blanks_before.get(i).copied().unwrap_or(0) {
             s.push('\n');
@@ -200,14 +240,15 @@ fn is_blank(ch: char) -> bool {
 pub fn check(ctx: &mut Ctx, c: &Case) -> Outcome {
     let Some(eff) = effective(&c.modes) else { return Pass::discard("mode combination not decided by the statement") };
     let input = render_input(c);
+    let lines = all_lines(c);
     let opts = cmdline(c);
     let mut cmd: Vec<OsString> = vec![rec_path()];
     cmd.extend(c.initial.iter().map(OsString::from));
     // `--` is needed neither by GNU nor here: the command starts at the first non-option word
     let expected: Vec<Vec<String>> = match eff {
-        Eff::Replace => c.lines.iter().map(|l| c.initial.iter().map(|i| i.replace(&c.r, l)).collect()).collect(),
+        Eff::Replace => lines.iter().map(|l| c.initial.iter().map(|i| i.replace(&c.r, l)).collect()).collect(),
         Eff::N(k) => {
-            let toks: Vec<String> = c.lines.iter().flat_map(|l| l.split(is_blank).filter(|t| !t.is_empty()).map(|t| t.to_string()).collect::<Vec<_>>()).collect();
+            let toks: Vec<String> = lines.iter().flat_map(|l| l.split(is_blank).filter(|t| !t.is_empty()).map(|t| t.to_string()).collect::<Vec<_>>()).collect();
             if toks.is_empty() {
                 vec![c.initial.clone()]
             } else {
@@ -218,7 +259,7 @@ pub fn check(ctx: &mut Ctx, c: &Case) -> Outcome {
             // a line ending in a blank continues on the next line
             let mut logical: Vec<Vec<String>> = vec![];
             let mut cont = false;
-            for l in &c.lines {
+            for l in &lines {
                 let toks: Vec<String> = l.split(is_blank).filter(|t| !t.is_empty()).map(|t| t.to_string()).collect();
                 if cont {
                     logical.last_mut().unwrap().extend(toks);
@@ -273,7 +314,8 @@ pub fn check(ctx: &mut Ctx, c: &Case) -> Outcome {
         .class_if(c.spelling != 0, "alternative-spelling")
         .class_if(c.initial.iter().any(|i| { let f: String = c.r.chars().take(1).collect(); c.r.chars().count() >= 2 && i.contains(&format!("{f}{}", c.r)) }), "R-preceded-by-its-own-prefix")
         .class_if(c.r != "{}", "custom-R")
-        .sample(json!({"cmdline": format!("xargs {} rec {:?}", opts.iter().map(|o| o.to_string_lossy().into_owned()).collect::<Vec<_>>().join(" "), c.initial), "input": lossy(&input), "invocations": got.len()}))
+        .class_if(!c.lead.is_empty(), "empty-lines-across-a-block-boundary")
+        .sample(json!({"cmdline": format!("xargs {} rec {:?}", opts.iter().map(|o| o.to_string_lossy().into_owned()).collect::<Vec<_>>().join(" "), c.initial), "input": if input.len() > 300 { format!("{} bytes; lead lines {:?}; then {:?}", input.len(), c.lead, lossy(&input[input.len() - 120..])) } else { lossy(&input) }, "invocations": got.len()}))
         .ok()
 }
 
@@ -287,7 +329,7 @@ fn run(w: &mut Worker) {
         ModeOpt::N(_) => 1,
         ModeOpt::L(_) => 2,
     };
-    let base = |modes: Vec<ModeOpt>, spelling: u8| Case { lines: vec!["a b".into(), "c".into(), "d e f".into(), "g".into(), "h i".into()], blanks_before: vec![0, 0, 1, 0, 0, 0], final_newline: true, initial: vec!["<{}>".into(), "k".into()], r: "{}".into(), spelling, modes };
+    let base = |modes: Vec<ModeOpt>, spelling: u8| Case { lines: vec!["a b".into(), "c".into(), "d e f".into(), "g".into(), "h i".into()], blanks_before: vec![0, 0, 1, 0, 0, 0], final_newline: true, initial: vec!["<{}>".into(), "k".into()], r: "{}".into(), spelling, modes, lead: vec![] };
     for a in &opts {
         for b in &opts {
             if kind(a) == kind(b) {
@@ -306,6 +348,7 @@ fn run(w: &mut Worker) {
     }
     w.exhaustive("mode-matrix", "every ordered choice of 2 or 3 of {-I, -n k, -L k}, k in 1..3 (x 4 spellings for pairs)", matrix.into_iter(), check);
     w.random("replace", w.tier.pick(6_000, 80_000), (40, 200), 500, gen_case, check);
+    w.random("long-input", w.tier.pick(1_200, 16_000), (40, 200), 200, gen_long_case, check);
 }
 
 fn replay(w: &mut Worker, _sub: &str, v: Value) -> Outcome {
